@@ -431,6 +431,8 @@ func setup(r *mon.Run) {
 	r.Rule = "Call scripts = plan structure (shape x message count 0-5 x back-end plan: read r messages / wait for half-close / j replies / ping-pong / " +
 		"reply-then-wait, OK or failure at that point x client schedule: close after sending, never close, close after reading, lock-step) x drawn attributes " +
 		"(status code 1-16 (+42 on gRPC), message class, 0-2 details, custom metadata class incl. -bin and multi-valued keys, 100 KiB payloads) on a gRPC and an HTTP front. " +
+		"Think-time scripts (client-streaming / bidi, gRPC front and streamed h2c body): the plan travels in the metadata so the back-end can fail / finish / reply before reading anything, " +
+		"after r messages or after the half-close, while the client pauses 20/100/300 ms after opening the stream, between sends and before the half-close (workload only, never a verdict). " +
 		"Each script runs twice (direct / through larking); distinct = front x shape x plan family x message count x outcome x half-close-seen x metadata class."
 	r.Floor = 40
 	r.Assume("grpc-go client/server (direct run) define the reference behaviour of a call script")
